@@ -150,6 +150,10 @@ class Ev:
         def f(x):
             if x.kind not in rv.VEC:
                 return UNSPEC
+            if t[1] == "Value" and k == "bv" and x.kind != "bv":
+                # std.Value[BitVector[n]](x) hands an Unsigned/Signed *Temporary* through unchanged (it already is a
+                # Temporary[BitVector[n]] in the subtype lattice) but converts a Signal/Port: kind not determined here
+                return UNSPEC
             if "bv" in (x.kind, k):
                 return rv.from_pattern(k, w, rv.pattern(x)) if x.width == w else UNSPEC
             if x.kind == k:
